@@ -14,7 +14,7 @@ from engine.runner import jnum, unj, active_regions
 ID = 'C02'
 ENGINE = 'IRSYM + PYSYM'
 TECHNIQUE = 'symbolic execution of the clang LLVM-IR of the C kernels and of the real Python code on shared z3 variables; equivalence queries per joint path (z3)'
-BUDGET = {'quick': 420, 'thorough': 3000}
+BUDGET = {'quick': 420, 'thorough': 1800}
 SOURCES = ['src/DTAIDistanceC/DTAIDistanceC/dd_dtw.c', 'src/DTAIDistanceC/DTAIDistanceC/dd_ed.c',
            'src/DTAIDistanceC/DTAIDistanceC/dd_dtw.h', 'src/DTAIDistanceC/DTAIDistanceC/dd_globals.h',
            'src/dtaidistance/dtw.py', 'src/dtaidistance/innerdistance.py', 'src/dtaidistance/ed.py',
